@@ -23,6 +23,8 @@ CHECKS = {
          "Lean 4 proof (table obligations + peek/pop lemmas) + respelling oracle and lex correspondence"),
  "C15": ("4.15", "Lean theorems about the work-list loop of main over a file-system model: when every argument exists the selection is exactly the named .c/.h files in order followed by the non-hidden *.c/*.h regular files below each named directory, once per mention; a missing path aborts with nothing analysed; no argument = the cwd tree; other suffixes contribute nothing; tied to __main__.py by the select correspondence on generated trees and an independent os.walk oracle; --use-gitignore compared against git's own answers",
          "Lean 4 proof (fold invariant over the argument list) + select correspondence"),
+ "C16": ("4.16", "Lean theorems: in the model of main's tail the humanized and the JSON run report the same files, verdicts and diagnostics in the same order with the same exit status for every list of analysed files (format_independent, from C04/C08); the regenerated argparse table and the list of `args` attributes main reads are the ones the model accounts for; the modules reading `.debug` are the known ones. That `debug`/-R do not change diagnostics, -R CheckDefine removes only #define-value diagnostics and inline content equals stored content is decided by the option oracle over all option combinations (partial)",
+         "Lean 4 proof (corollary of the formatter theorems) + table obligations + option-combination oracle"),
  "C17": ("4.17", "Lean theorems (lexer half): inside a literal every opaque character is consumed as itself, one column, no diagnostic, and two string bodies of the same length leave the lexer in the same state with the same diagnostics; the engine half (no rule looks inside comment/literal values) is decided by the same-width swap oracle on the real pipeline (partial)",
          "Lean 4 proof (induction over the literal body) + swap oracle"),
  "C18": ("4.18", "Lean theorems (lexer half): the identifier sub-lexer's result depends only on the identifier's length and on membership in the regenerated keyword table; the engine half (rules read spellings only through length/prefix/class) is decided by the consistent-renaming oracle on the real pipeline (partial)",
